@@ -15,9 +15,9 @@ import (
 // some choice of a multi-valued path, `$` is the query argument). The implementation is never asked what a
 // script means.
 type Scr struct {
-	Kind string     `json:"k"`            // "c" constant, "p" path (@ or $ + fragments), "1" unary, "2" binary
+	Kind string     `json:"k"`              // "c" constant, "p" path (@ or $ + fragments), "1" unary, "2" binary
 	Root bool       `json:"root,omitempty"` // "p": the path starts at `$` (the query argument), not at `@`
-	Op   string     `json:"op,omitempty"` // eq neq lt gt lte gte or and not
+	Op   string     `json:"op,omitempty"`   // eq neq lt gt lte gte or and not
 	A    *Scr       `json:"a,omitempty"`
 	B    *Scr       `json:"b,omitempty"`
 	P    []fragJSON `json:"p,omitempty"`
@@ -263,6 +263,19 @@ func (s *Scr) rootOperands(nested bool, out []Path) []Path {
 	return s.B.rootOperands(nested, s.A.rootOperands(nested, out))
 }
 
+// rebased is the script with every top-level `$…` operand read as `$[0]…` (see Path.sameTruth).
+func (s *Scr) rebased() *Scr {
+	if s == nil {
+		return nil
+	}
+	c := *s
+	c.A, c.B = s.A.rebased(), s.B.rebased()
+	if s.Kind == "p" && s.Root {
+		c.path = append(Path{fNth(0)}, s.path...)
+	}
+	return &c
+}
+
 // seal / unseal move the path between its working form and its JSON form (replays, corpus).
 func (s *Scr) seal() *Scr {
 	if s == nil {
@@ -501,26 +514,26 @@ func rootBox(emit func(p Path, t *Node)) int {
 				n += 7
 			}
 		}
-		emit(Path{fChild("d"), fFilter(rt(fChild("k"))), fChild("x")}, t)                                               // existence of $.k: all
-		emit(Path{fChild("d"), fFilter(rt(fChild("zz")))}, t)                                                           // of $.zz: none
-		emit(Path{fChild("d"), fFilter(not(op2("eq", at(fChild("a")), rt(fChild("k")))))}, t)                           // !(…)
+		emit(Path{fChild("d"), fFilter(rt(fChild("k"))), fChild("x")}, t)                                                                 // existence of $.k: all
+		emit(Path{fChild("d"), fFilter(rt(fChild("zz")))}, t)                                                                             // of $.zz: none
+		emit(Path{fChild("d"), fFilter(not(op2("eq", at(fChild("a")), rt(fChild("k")))))}, t)                                             // !(…)
 		emit(Path{fChild("d"), fFilter(op2("and", op2("gte", at(fChild("a")), rt(fChild("k"))), op2("lt", at(fChild("x")), ki(13))))}, t) // && with an @-only comparison
-		emit(Path{fChild("d"), fFilter(op2("eq", at(), rt(fChild("d"), fNth(1))))}, t)                                  // an element equal to a $-selected container? (containers do not compare)
-		emit(Path{fChild("d"), fFilter(op2("eq", rt(), rt()))}, t)                                                      // `$ == $`
+		emit(Path{fChild("d"), fFilter(op2("eq", at(), rt(fChild("d"), fNth(1))))}, t)                                                    // an element equal to a $-selected container? (containers do not compare)
+		emit(Path{fChild("d"), fFilter(op2("eq", rt(), rt()))}, t)                                                                        // `$ == $`
 		// a filter below another filter, both reading `$`
 		emit(Path{fChild("c"), fFilter(at(fNth(0))), fFilter(op2("eq", at(), rt(fChild("k"))))}, t)
 		// `$` inside a filter nested in the script's path: the documented reading takes the query argument
-		emit(Path{fChild("d"), fFilter(at(fFilter(op2("eq", at(), rt(fChild("k"))))))}, t)       // $.d[?(@[?(@ == $.k)])]
+		emit(Path{fChild("d"), fFilter(at(fFilter(op2("eq", at(), rt(fChild("k"))))))}, t)          // $.d[?(@[?(@ == $.k)])]
 		emit(Path{fChild("c"), fFilter(at(fFilter(op2("eq", at(), rt(fChild("k")))))), fNth(0)}, t) // $.c[?(@[?(@ == $.k)])][0]
 		n += 9
 	}
 	// arrays at the root
 	arr := nArr(nArr(i(1), i(2), i(3)), nArr(i(2), f(2), i(4)), nArr(f(-2.5), i(-2)))
 	for _, op := range cmpOps {
-		emit(Path{fWild(), fFilter(op2(op, at(), rt(fNth(0), fNth(1))))}, arr)            // $[*][?(@ op $[0][1])]
-		emit(Path{fNth(1), fFilter(op2(op, rt(fNth(2), fNth(1)), at()))}, arr)            // $[1][?($[2][1] op @)]
-		emit(Path{fSlice(0, 2), fFilter(op2(op, at(), rt(fNth(-1), fNth(0))))}, arr)      // $[0:2][?(@ op $[-1][0])]
-		emit(Path{fFilter(op2(op, at(fNth(0)), rt(fNth(1), fNth(0)))), fNth(1)}, arr)     // at the root: $[?(@[0] op $[1][0])][1]
+		emit(Path{fWild(), fFilter(op2(op, at(), rt(fNth(0), fNth(1))))}, arr)                    // $[*][?(@ op $[0][1])]
+		emit(Path{fNth(1), fFilter(op2(op, rt(fNth(2), fNth(1)), at()))}, arr)                    // $[1][?($[2][1] op @)]
+		emit(Path{fSlice(0, 2), fFilter(op2(op, at(), rt(fNth(-1), fNth(0))))}, arr)              // $[0:2][?(@ op $[-1][0])]
+		emit(Path{fFilter(op2(op, at(fNth(0)), rt(fNth(1), fNth(0)))), fNth(1)}, arr)             // at the root: $[?(@[0] op $[1][0])][1]
 		emit(Path{fUnion(int64(0), int64(2)), fFilter(op2(op, at(), rt(fWild(), fNth(0))))}, arr) // multi-valued
 		n += 5
 	}
